@@ -19,6 +19,29 @@ from penman.exceptions import DecodeError  # noqa: E402
 
 from . import abstraction as ab  # noqa: E402
 
+# optional line coverage of penman by the drivers (blind-spot analysis): VERIF_COVER=<file prefix>
+if os.environ.get('VERIF_COVER'):
+    import atexit
+    import threading
+    _COV = set()
+    _PREFIX = os.path.realpath(os.environ.get('PENMAN_SRC', '/repo')) + '/penman/'
+
+    def _tracer(frame, event, arg):
+        fn = frame.f_code.co_filename
+        if not fn.startswith(_PREFIX):
+            return None
+        if event == 'line' or event == 'call':
+            _COV.add((fn[len(_PREFIX):], frame.f_lineno))
+        return _tracer
+
+    def _dump():
+        with open('%s.%d.json' % (os.environ['VERIF_COVER'], os.getpid()), 'w') as f:
+            _json_dump(sorted(_COV), f)
+    from json import dump as _json_dump
+    atexit.register(_dump)
+    sys.settrace(_tracer)
+    threading.settrace(_tracer)
+
 assert os.path.realpath(penman.__file__).startswith(os.path.realpath(os.environ.get('PENMAN_SRC', '/repo'))), penman.__file__
 
 CALL_TIMEOUT = 5.0        # seconds of CPU time of this process (a hanging call burns CPU; a descheduled process does not)
